@@ -14,7 +14,22 @@ use crate::WithErrorInfo;
 impl Resolver<'_> {
     pub(super) fn resolve_ident(&mut self, ident: &Ident) -> Result<Ident, Error> {
         let mut res = if let Some(default_namespace) = self.default_namespace.clone() {
-            self.resolve_ident_core(ident, Some(&default_namespace))
+            // a declaration of an enclosing module shadows a name of the default namespace
+            let mut module_path = self.current_module_path.clone();
+            let mut sibling = None;
+            while !module_path.is_empty() {
+                let relative = ident.clone().prepend(module_path.clone());
+                let decls = self.root_mod.module.lookup(&relative);
+                if decls.len() == 1 {
+                    sibling = decls.into_iter().next();
+                    break;
+                }
+                module_path.remove(0);
+            }
+            match sibling {
+                Some(fq_ident) => Ok(fq_ident),
+                None => self.resolve_ident_core(ident, Some(&default_namespace)),
+            }
         } else {
             let mut ident = ident.clone().prepend(self.current_module_path.clone());
 
